@@ -280,6 +280,18 @@ def cases(rng, tier):
             continue
         nf = int(rng.integers(2, 5))
         specs, times, truth = gen.series(rng, base, nf, field="random", amp_frac=0.4, renumber=False)
+        # directed histories (always included): every store-writing call between a build with non-default options and a solve of the
+        # same frame -- a matrix that survives get_system_velocity_per_frame, a pressure matrix built before a re-solve, a re-build
+        # with other options between solve and pressure step
+        t0 = int(rng.integers(0, nf))
+        a0 = int(rng.integers(1, len(BUILD_ARGS)))
+        sv = SYSVEL_BASE + int(rng.integers(0, len(SYSVEL_LIMITS)))
+        b0 = int(rng.integers(0, len(SOLVE_ARGS)))
+        directed = [[["BuildF", t0, a0], ["SysVel", sv], ["SolveS", t0, b0], ["BuildP", t0], ["SolveP", t0, 0]],
+                    [["BuildF", t0, a0], ["SolveS", t0, b0], ["SysVel", sv], ["SolveS", t0, b0], ["BuildP", t0], ["SolveP", t0, 0]],
+                    [["BuildF", t0, 0], ["SolveS", t0, b0], ["BuildP", t0], ["BuildF", t0, a0], ["SolveS", t0, b0], ["SolveP", t0, 0],
+                     ["BuildP", t0], ["SolveP", t0, 0]]]
+        yield specs, times, directed[k % 3], f"s{k}/directed{k % 3}"
         for j in range(3 if tier == "quick" else 4):
             hist = random_history(rng, nf, int(rng.integers(4, 13)))
             # make sure there is something to solve
